@@ -90,3 +90,16 @@ add("C05", "fuzzing (same malformed-input generators as C03) with an invariant o
     "bounds, start at a code token, end just past a code token, name = an identifier token inside the span, 1 <= length <= "
     "code-bearing lines of the span, source order, distinct starts, and loc = sum of lengths at scan_path.",
     "trusts Pygments' raw token stream for 'code token' and 'identifier token'; inputs on which the analysis raises are left to C03")
+
+add("C11", "Hypothesis-generated directory trees and exclusion lists written to disk, reference gitignore matcher for five unambiguous pattern classes, call counter wrapped around the analyser",
+    "3200 (thorough 48000) generated trees (hidden, built-in-excluded, unsupported, deep files) x exclusion lists supplied by option, "
+    ".codelimit.yml and .gitignore x six spellings of the root are scanned with scan_path; the resulting key set, languages and "
+    "checksums must equal the set computed by an independent reference (itself cross-checked against pathspec on every run), and the "
+    "wrapped _analyze_file must have been called for exactly those files, once each.",
+    "only the five modelled gitignore classes; extension table restricted to unambiguous Pygments mappings; built-in list transcribed in the reference")
+add("C12", "differential testing of check_command against scan_path on Hypothesis-generated trees (all ways of reaching each file)",
+    "640 (thorough 12800) generated trees with flat functions around the 30/60 thresholds, canonical programs, malformed and Latin-1 files, "
+    "arbitrary gitignore patterns (incl. negation, **, brackets) and ambiguous header extensions: for relative files, relative and absolute "
+    "directories and the root, the parsed output of check must list exactly scan's functions > 30 for the files scan analyses there, "
+    "with equal positions, order, files-checked count and exit status.",
+    "scan_path is the reference side (its own correctness is C01/C11); hidden files or directories named directly are unconstrained")
